@@ -236,5 +236,11 @@ def history():
     return guarded("bundle/history", run)
 
 
+def shared_state():
+    # the bundle is a function of this program and the options: nothing outlives a conversion (shared with C12)
+    from tx import p_c12
+    return [dict(o, id="state/" + o["id"]) for o in p_c12.persistent_state()]
+
+
 def obligations():
-    return small_graphs() + real_library() + regex_contracts() + user_text() + requested_size_reaches_bundle() + bundle_order_through_convert() + line_splitting() + history()
+    return small_graphs() + real_library() + regex_contracts() + user_text() + requested_size_reaches_bundle() + bundle_order_through_convert() + line_splitting() + history() + shared_state()
